@@ -129,6 +129,10 @@ AcceptedShape == (pc = "done" /\ out # Reject) =>
     /\ ~(Present(inp.dr) /\ ~Present(inp.nr) /\ ~Present(inp.cut))
     /\ \A v \in {inp.nr, inp.dr, inp.cut} : Present(v) => v > 0
 
+\* a cutoff that the file gives is the cutoff of the table - also when it is no whole multiple of a given step (the statement
+\* fixes the row count for whole multiples only; the rows always end at the cutoff)
+CutoffGivenIsKept == (pc = "done" /\ out # Reject /\ Present(inp.cut)) => out.cut = inp.cut
+
 -----------------------------------------------------------------------------
 (* (d) commensurate decimal lattice *)
 Pow10(e) == IF e = 0 THEN 1 ELSE IF e = 1 THEN 10 ELSE IF e = 2 THEN 100 ELSE IF e = 3 THEN 1000 ELSE IF e = 4 THEN 10000 ELSE 100000
